@@ -18,11 +18,25 @@ func (s sx) String() string {
 	if !s.isL {
 		return s.atom
 	}
-	parts := make([]string, len(s.list))
-	for i, x := range s.list {
-		parts[i] = x.String()
+	var b strings.Builder
+	s.write(&b)
+	return b.String()
+}
+
+// write renders in time linear in the output (deeply nested trees occur in C14)
+func (s sx) write(b *strings.Builder) {
+	if !s.isL {
+		b.WriteString(s.atom)
+		return
 	}
-	return "(" + strings.Join(parts, " ") + ")"
+	b.WriteByte('(')
+	for i, x := range s.list {
+		if i > 0 {
+			b.WriteByte(' ')
+		}
+		x.write(b)
+	}
+	b.WriteByte(')')
 }
 
 func A(s string) sx             { return sx{atom: s} }
